@@ -11,6 +11,7 @@
 from collections.abc import Iterable, Sequence
 from typing import Optional, Union
 
+from . import gate_names
 from .circuit import GateSequence, ImmutableQuantumCircuit
 from .circuit_parametric import (
     ImmutableBoundParametricQuantumCircuit,
@@ -221,6 +222,22 @@ class LinearMappedParametricQuantumCircuit(
             out_params_addition=(param,), mapping_update={param: angle}
         )
 
+    def _add_parametric_gate(
+        self, gate: ParametricQuantumGate, angle: ParameterOrLinearFunction
+    ) -> None:
+        if gate.name == gate_names.ParametricRX:
+            self.add_ParametricRX_gate(gate.target_indices[0], angle)
+        elif gate.name == gate_names.ParametricRY:
+            self.add_ParametricRY_gate(gate.target_indices[0], angle)
+        elif gate.name == gate_names.ParametricRZ:
+            self.add_ParametricRZ_gate(gate.target_indices[0], angle)
+        elif gate.name == gate_names.ParametricPauliRotation:
+            self.add_ParametricPauliRotation_gate(
+                gate.target_indices, gate.pauli_ids, angle
+            )
+        else:
+            raise ValueError(f"Unsupported parametric gate: {gate}")
+
     def extend(
         self,
         gates: Union[GateSequence, ParametricQuantumCircuitProtocol],
@@ -238,13 +255,30 @@ class LinearMappedParametricQuantumCircuit(
                     f"Qubit count not match (self={self.qubit_count}, "
                     f"other={gates.qubit_count})."
                 )
-            if isinstance(gates.param_mapping, LinearParameterMapping):
-                self._param_mapping = self._param_mapping.combine(gates.param_mapping)
-            else:
+            other_mapping = gates.param_mapping
+            if not isinstance(other_mapping, LinearParameterMapping):
                 raise ValueError(
                     f"Unsupported parameter mapping type: {type(gates.param_mapping)}"
                 )
-            self._circuit.extend(gates.primitive_circuit())
+            other_circuit = gates.primitive_circuit()
+            if set(self._param_mapping.out_params).isdisjoint(
+                other_mapping.out_params
+            ):
+                self._param_mapping = self._param_mapping.combine(other_mapping)
+                self._circuit.extend(other_circuit)
+            else:
+                # The two circuits share parameters of parametric gates (e.g. a
+                # circuit and a copy of itself). Each appended parametric gate
+                # needs its own gate parameter, otherwise a single gate parameter
+                # would drive several gates.
+                self._param_mapping = self._param_mapping.combine(
+                    LinearParameterMapping(other_mapping.in_params)
+                )
+                for gate, param in other_circuit.gates_and_params:
+                    if isinstance(gate, QuantumGate):
+                        self.add_gate(gate)
+                    else:
+                        self._add_parametric_gate(gate, other_mapping.mapping[param])
         else:
             if isinstance(gates, ImmutableQuantumCircuit):
                 if self.qubit_count != gates.qubit_count:
